@@ -33,12 +33,15 @@ def ob(prop, harness, oid, max_paths=5000, wall=120, validate=1, expect=None, **
 def make_twins(obs, picks):
     """Vacuity guard: clone the first obligation whose id contains `sub` with a deliberately wrong oracle `twin`;
     such an obligation MUST come back violated (with a model that replays), otherwise the check exits 3."""
+    import re
     out = []
     for sub, twin in picks:
-        for o in obs:
-            if sub in o['oid'] and not o.get('twin'):
-                t = dict(o)
-                t['oid'] = o['oid'] + '  [twin:%s]' % twin
+        cands = [sub, re.sub(r'/[Nn]=[^/]*$', '/', sub)]        # sizes differ between tiers: fall back to the family
+        for cand in cands:
+            hit = [o for o in obs if cand in o['oid'] and not o.get('twin')]
+            if hit:
+                t = dict(hit[0])
+                t['oid'] = hit[0]['oid'] + '  [twin:%s]' % twin
                 t['twin'] = twin
                 out.append(t)
                 break
@@ -49,12 +52,14 @@ def make_twins(obs, picks):
 
 def make_forkmode(obs, subs):
     """Stub guard: the same obligation with Python's own min/max (forking) instead of the ITE stubs; same verdict required."""
+    import re
     out = []
     for sub in subs:
-        for o in obs:
-            if sub in o['oid'] and not o.get('twin'):
-                t = dict(o)
-                t['oid'] = o['oid'] + '  [fork-mode]'
+        for cand in (sub, re.sub(r'/[Nn]=[^/]*$', '/', sub)):
+            hit = [o for o in obs if cand in o['oid'] and not o.get('twin')]
+            if hit:
+                t = dict(hit[0])
+                t['oid'] = hit[0]['oid'] + '  [fork-mode]'
                 t['forkmode'] = True
                 out.append(t)
                 break
@@ -139,7 +144,7 @@ def decide(o):
     res = {'oid': o['oid'], 'prop': o['prop'], 'harness': o['harness'], 'params': o['params'],
            'verdict': 'holds', 'fail': [], 'paths': 0, 'decisions': 0, 'queries': 0, 'solver_s': 0.0,
            'aborted': {}, 'validated': 0, 'asserts': 0, 'ok_paths': 0, 'raised_paths': 0,
-           'unconfirmed': []}
+           'unconfirmed': [], 'second_solver': {}}
     from . import refsem, refct
     try:
         refsem.TWIN = refct.TWIN = o.get('twin')
@@ -190,7 +195,11 @@ def decide(o):
                 t = z3.simplify(_cond_term(cond))
                 if z3.is_true(t):
                     continue
-                if z3.is_false(t) or pr.ctx.check(z3.Not(t)) == z3.sat:
+                is_sat = z3.is_false(t) or pr.ctx.check(z3.Not(t)) == z3.sat
+                if o.get('recheck') and state.get('rechecked', 0) < o['recheck']:
+                    state['rechecked'] = state.get('rechecked', 0) + 1
+                    second_solver(pr.ctx, z3.Not(t), 'sat' if is_sat else 'unsat', res['second_solver'])
+                if is_sat:
                     candidate(pr, 'mismatch:' + label.split('@')[0], label, z3.Not(t))
             # concolic consistency: symbolic observations under a model == concrete run
             if res['validated'] < o.get('validate', 1) and pr.env.observed and not getattr(body, 'uf', False):
@@ -234,6 +243,41 @@ def decide(o):
     res['twin'] = o.get('twin')
     res['forkmode'] = bool(o.get('forkmode'))
     return res
+
+
+SECOND_SOLVERS = (('z3-4.8.12', ['/usr/bin/z3', '-T:30']), ('cvc5-1.0.3', ['cvc5', '--tlimit=30000']))
+
+
+def second_solver(ctx, negated, expect, stats):
+    """Re-decide one discharged query with the two other solver builds on this image (SMT-LIB2 dump of the path
+    condition plus the negated assertion).  A disagreement, or an `(error` line, makes the obligation inconclusive."""
+    import subprocess
+    import tempfile
+    s = ctx.solver
+    s.push()
+    try:
+        s.add(negated)
+        txt = '(set-logic ALL)\n' + s.to_smt2()
+    finally:
+        s.pop()
+    with tempfile.NamedTemporaryFile('w', suffix='.smt2', delete=False) as f:
+        f.write(txt)
+        path = f.name
+    try:
+        for name, cmd in SECOND_SOLVERS:
+            try:
+                out = subprocess.run(cmd + [path], capture_output=True, text=True, timeout=60).stdout
+            except Exception:
+                out = 'timeout'
+            if '(error' in out:
+                raise Inconclusive('second solver %s reports an error on a dumped query: %s' % (name, out[:200]))
+            ans = (out.split() or ['none'])[0]
+            key = '%s:%s' % (name, 'agree' if ans == expect else ('no-answer' if ans not in ('sat', 'unsat') else 'DISAGREE'))
+            stats[key] = stats.get(key, 0) + 1
+            if ans in ('sat', 'unsat') and ans != expect:
+                raise Inconclusive('second solver %s answers %s where z3 %s answered %s' % (name, ans, z3.get_version_string(), expect))
+    finally:
+        os.unlink(path)
 
 
 def _approx(a, b):
@@ -283,6 +327,14 @@ def _compare_observed(sym_obs, conc_obs, model):
 # --------------------------------------------------------------------------
 # known findings
 # --------------------------------------------------------------------------
+def _sum_dicts(ds):
+    out = {}
+    for d in ds:
+        for k, v in d.items():
+            out[k] = out.get(k, 0) + v
+    return out
+
+
 def load_known():
     p = os.path.join(ROOT, 'known_findings.jsonl')
     out = []
@@ -336,6 +388,10 @@ def run_property(prop, tier, seed, jobs=None, only=None, verbose=False):
     if len(set(ids)) != len(ids):
         dup = [i for i in set(ids) if ids.count(i) > 1][:3]
         raise symx.HarnessError('duplicate obligation ids %s' % dup)
+    n_re = 12 if tier == 'quick' else 60
+    plain = [o for o in obs if not o.get('twin') and not o.get('forkmode')]
+    for o in rng.sample(plain, min(n_re, len(plain))):
+        o['recheck'] = 3            # queries per obligation handed to the second solvers
     _OBS = obs
     jobs = jobs or int(os.environ.get('VERIF_JOBS', '0')) or min(16, os.cpu_count() or 4)
     results = []
@@ -436,6 +492,7 @@ def finish(prop, tier, seed, mod, results, wall):
                                                        and all('known' in f for f in r['fail'])]),
             'obligations_inconclusive': n_inc,
             'vacuity_twins_refuted': '%d of %d (deliberately wrong oracles that must be refuted with a replaying model)' % (len(twins) - len(twins_bad), len(twins)),
+            'second_solver_rechecks': _sum_dicts([r.get('second_solver', {}) for r in results]),
             'fork_mode_twins_agree': len([r for r in results if r.get('forkmode') and r['verdict'] == 'holds']),
             'obligations_outside_claim_arithmetic_domain': len([r for r in results if r['verdict'] == 'outside']),
             'assertions_decided': tot('asserts'),
